@@ -998,3 +998,12 @@ package shwap
 //@   assert deref(back.Proof).nodes == deref(s.Proof).nodes
 //@   assert deref(back.Proof).isMaxNamespaceIDIgnored <==> deref(s.Proof).isMaxNamespaceIDIgnored
 //@   assert back.ProofType == s.ProofType
+
+// C01 / C18: reading a sample off a stream. The message the stream is decoded into starts out empty - no
+// share buffer, no proof carried over from whatever the receiver holds (a verified sample's bytes must not be
+// reachable from the decoder of the next response).
+//@ func (*Sample).ReadFrom
+//@   property C01 C18
+//@   noframe
+//@   requires s != nil
+//@   callpre serde.Read: sample.Share == nil && sample.Proof == nil && sample.ProofType == 0
